@@ -95,6 +95,13 @@ func runC34(c *eng.Ctx) {
 				full = true
 			}
 		}
+		// io.ReadAtLeast(r, buf, len(buf)) is io.ReadFull(r, buf) by definition
+		for _, call := range eng.CallsNamed(rv, "io.ReadAtLeast") {
+			a := call.Common().Args
+			if strings.HasSuffix(eng.Render(a[1]), "[:]") && eng.Render(a[0]) == "p0" && constIs(a[2], 12) {
+				full = true
+			}
+		}
 		c.Check("R2", "receive-fills-array", rv.Pos(), full, "the version array is filled completely with io.ReadFull (short reads are errors)")
 		for _, r := range eng.Returns(rv) {
 			res := eng.RetResults(r)
@@ -102,10 +109,11 @@ func runC34(c *eng.Ctx) {
 				continue
 			}
 			for i := range ranges {
-				rr := eng.Render(res[i])
+				// explicit bounds of the 12-byte array are the same ranges: [0:4] = [:4], [8:12] = [8:]
+				rr := strings.Replace(strings.Replace(eng.Render(res[i]), "[0:", "[:", 1), ":12]", ":]", 1)
 				c.Check("R2", fmt.Sprintf("receive-layout#%d", i), r.Pos(), strings.HasSuffix(rr, ranges[i]+")") && strings.Contains(rr, "bigEndian).Uint32("), fmt.Sprintf("result %d is decoded from %s", i, ranges[i]), rr)
 			}
-			c.Check("R2", "receive-success-after-full-read", r.Pos(), eng.HasAtom(eng.Guards(r), `^\(io\.ReadFull\(p0, .*\)#1 == nil\)$`, true), "values are returned only after the full read succeeded")
+			c.Check("R2", "receive-success-after-full-read", r.Pos(), eng.HasAtom(eng.Guards(r), `^\(io\.(ReadFull|ReadAtLeast)\(p0, .*\)#1 == nil\)$`, true), "values are returned only after the full read succeeded")
 		}
 	}
 	if n, err := c.P.Named(mutagenPkg, "versionBytes"); err == nil {
@@ -138,6 +146,33 @@ func runC34(c *eng.Ctx) {
 				}
 				isExp := func(v ssa.Value) bool { return eng.Render(v) == "p1" }
 				okCmp = (isBuf(b.X) && isExp(b.Y)) || (isBuf(b.Y) && isExp(b.X))
+			}
+			// bytes.Equal(received[:], expected[:]) compares the same two whole arrays
+			if call, ok := eng.Unwrap(res[0]).(*ssa.Call); ok && eng.CalleeName(call) == "bytes.Equal" && buffer != nil && len(call.Call.Args) == 2 {
+				whole := func(v ssa.Value) ssa.Value { // X of a full slice X[:]
+					if sl, ok := eng.Unwrap(v).(*ssa.Slice); ok && sl.Low == nil && sl.High == nil {
+						return sl.X
+					}
+					return nil
+				}
+				isParamCell := func(v ssa.Value) bool { // the cell the expected array (p1) was spilled into
+					al, ok := v.(*ssa.Alloc)
+					if !ok {
+						return false
+					}
+					stores, fromParam := 0, false
+					for _, ref := range *al.Referrers() {
+						if st, ok := ref.(*ssa.Store); ok && st.Addr == ssa.Value(al) {
+							stores++
+							fromParam = eng.Render(st.Val) == "p1"
+						}
+					}
+					return stores == 1 && fromParam
+				}
+				x, y := whole(call.Call.Args[0]), whole(call.Call.Args[1])
+				if x != nil && y != nil && ((x == buffer && isParamCell(y)) || (y == buffer && isParamCell(x))) {
+					okCmp = true
+				}
 			}
 			c.Check("R3", "magic-whole-array-compared", r.Pos(), okCmp, "the verdict is the comparison of the whole received array with the expected one", rr)
 		}
